@@ -13,6 +13,7 @@ import (
 	"time"
 
 	"golang.org/x/tools/go/ssa"
+	"golang.org/x/tools/go/ssa/ssautil"
 )
 
 type PropConfig struct {
@@ -423,6 +424,21 @@ func obligationKindCounts(name string) bool {
 func baseKey(n string) string { return n }
 
 func lookupFunc(P *Program, key string) *ssa.Function {
+	if fn := lookupFunc0(P, key); fn != nil {
+		if fn.TypeParams().Len() > 0 && len(fn.TypeArgs()) == 0 {
+			// generic origin: verify an instantiation (the code that actually runs)
+			for inst := range ssautil.AllFunctions(P.Prog) {
+				if inst.Origin() == fn && len(inst.Blocks) > 0 {
+					return inst
+				}
+			}
+		}
+		return fn
+	}
+	return nil
+}
+
+func lookupFunc0(P *Program, key string) *ssa.Function {
 	if fn, ok := P.Funcs[key]; ok {
 		return fn
 	}
